@@ -244,7 +244,7 @@ where
                 .world
                 .archetypes
                 .get_mut_or_insert_new(identifier_buffer);
-            let index =
+            let (index, removed_component) =
                 // SAFETY: `current_component_bytes` is guaranteed to be an allcoated buffer of
                 // packed, properly initialized components that were contained in the old
                 // archetype's row, corresponding to the components identified by the archetype's
@@ -272,6 +272,13 @@ where
                     .modify_location_unchecked(entity_identifier, location);
             }
             self.location = location;
+
+            // Drop the removed component. This is done last, so that the world is in a consistent
+            // state if the component's destructor panics.
+            // SAFETY: `removed_component` points to the properly initialized bytes of the removed
+            // component within `current_component_bytes`, which is still allocated. Those bytes
+            // are not read again.
+            drop(unsafe { removed_component.cast::<Component>().read_unaligned() });
         }
     }
 
